@@ -62,11 +62,17 @@ func c08Spec(n *model.Node, pos model.Position) lib.Spec {
 		n.Split = 1 + int(h/5)%(len(n.Rules)-1)
 		defer func() { n.Split = 0 }()
 	}
+	switch h % 7 {
+	case 3:
+		st.MultiLine = 1 // the annotation as /* {…} */ on the line of its node
+	case 5:
+		st.Gaps = true // a tab, nothing or several blanks between the annotation marker and the rule object
+	}
 	if h%3 != 0 || (pos == model.PosRoot && n.Rule("optional") != nil) {
-		return specOf(&model.Schema{Root: w, Types: gen.RuleEnv()}, st)
+		return specOf(&model.Schema{Root: w, Types: gen.RuleEnv(), Enums: gen.RuleEnums()}, st)
 	}
 	types := append(gen.RuleEnv(), &model.TypeDef{Name: "@host", Root: w})
-	sp := specOf(&model.Schema{Root: model.Obj(model.P("h", model.Ref("@host"))), Types: types}, st)
+	sp := specOf(&model.Schema{Root: model.Obj(model.P("h", model.Ref("@host"))), Types: types, Enums: gen.RuleEnums()}, st)
 	sp.PreRoot = h%6 == 0
 	return sp
 }
